@@ -63,6 +63,7 @@ RULES = {
     "R7": RR.r7_no_drop,
     "R16": RR.r16_ctor_funnel,
     "R16l": RR.r16_literals_only,
+    "R14t": _get(PR, "r14_seed_untracked"),
     "R17": RR.r17_eq_fields,
     "R20": RR.r20_ownership_edges,
     "R8": _get(OR, "r8_attach_iff_tracked"),
@@ -119,7 +120,7 @@ PROPERTY_RULES = {
     "C06": ["R37", "R30"],
     "C07": ["R35", "R16", "R32"],
     "C08": ["R1", "R2", "R3", "R4", "R7", "R50"],
-    "C09": ["R8", "R9", "R10", "R5", "R24", "R47"],
+    "C09": ["R8", "R9", "R10", "R5", "R24", "R47", "R14t"],
     "C10": ["R23", "R20", "R25", "R9", "R11", "R10", "R26", "R24", "R44", "R53"],
     "C11": ["R24", "R5", "R27", "R6", "R26", "R9", "R25"],
     "C12": ["R5", "R27", "R3", "R6", "R7", "R17", "R23", "R47"],
@@ -128,7 +129,7 @@ PROPERTY_RULES = {
     "C15": ["R34", "R30"],
     "C16": ["R16", "R3", "R17", "R41"],
     "C17": ["R13", "R14", "R26", "R44"],
-    "C18": ["R20", "R21", "R7", "R8", "R16l", "R9"],
+    "C18": ["R20", "R21", "R7", "R8", "R16l", "R9", "R14t"],
     "C19": ["R19"],
 }
 
